@@ -37,6 +37,10 @@ def run_both(chk, cases, name):
     lines = [G.render(case, per[i]) for i, case in enumerate(cases)]
     impl = chk.run_impl("pipeline", "TestVerifProbePipeline", lines, name=name)
     model = chk.run_model("pipeline", lines, name=name)
+    for i, case in enumerate(cases):
+        if case.get("cluster_died"):
+            # acceptable environments never crash the model's cluster module (C11_no_crash); the real one died
+            impl[i] = "PROBE-PANIC " + case["cluster_died"] + " | " + impl[i]
     return lines, impl, model
 
 
@@ -115,7 +119,7 @@ def _from_json(obj):
 
 
 def run(chk, failed):
-    n = 1500 if not chk.thorough else 40000
+    n = 5000 if not chk.thorough else 150000
     cases = []
     for ln in C.read_corpus(chk.pid):
         cases.append(_from_json(json.loads(ln)))
@@ -148,6 +152,12 @@ def run(chk, failed):
             orc.append((i, ["the probe recovered a panic: " + a[-300:]]))
             continue
         fails, stats = G.check(case, a)
+        for seg in G.parse_output(a):
+            ans = G.parse_answer(seg)
+            if ans.get("view") == "F":
+                chk.count("answer:" + (ans["status"] if ans.get("found") else "NOTFOUND"))
+                for part in ans.get("parts", []):
+                    chk.count("partition:" + part["status"])
         for k, v in stats.items():
             tot[k] = tot.get(k, 0) + v
         if stats.get("lag_checked"):
